@@ -70,7 +70,7 @@ def derived_siblings(chk, tier):
     from . import c09
     import json as _json
     mirp, srcp = facts.ensure_fixture_facts()
-    d = _json.load(open(mirp))
+    d = facts.load_json_canonical(mirp)
     d["_config"] = "fixtures"
     prog = mir.Program(d)
     ev = shapes.ShapeEval(prog)
